@@ -3,6 +3,7 @@
 package main
 
 import (
+	"syscall"
 	"bufio"
 	"crypto/sha256"
 	"encoding/hex"
@@ -259,11 +260,25 @@ func (x *Exec) run(lines []string) {
 		x.lineNo = i + 1
 		t0 := time.Now()
 		// watchdog: an op of the real code that does not finish is reported, not waited for
-		wd := time.AfterFunc(opTimeout(), func() {
+		// The watchdog fires on wall-clock time, but it only reports an op that has also CONSUMED processor
+		// time: on a loaded machine a trivial op can sit unscheduled for longer than the limit (seen once in
+		// session 5: two trivial ops "did not terminate" while a dozen other runs shared the cores). A starved
+		// op is given more time, up to ten times the limit.
+		cpu0 := processCPU()
+		rearmed := 0
+		var wd *time.Timer
+		var fire func()
+		fire = func() {
+			if processCPU()-cpu0 < opTimeout()/2 && rearmed < 9 {
+				rearmed++
+				wd = time.AfterFunc(opTimeout(), fire)
+				return
+			}
 			x.out.Flush()
 			fmt.Fprintf(os.Stderr, "OP-TIMEOUT line %d: %s\n", i+1, line)
 			os.Exit(3)
-		})
+		}
+		wd = time.AfterFunc(opTimeout(), fire)
 		toks := strings.Fields(line)
 		var out string
 		switch {
@@ -445,6 +460,15 @@ func readLines(path string) []string {
 		return nil
 	}
 	return strings.Split(s, "\n")
+}
+
+// processor time (user + system) consumed by this process so far
+func processCPU() time.Duration {
+	var ru syscall.Rusage
+	if err := syscall.Getrusage(syscall.RUSAGE_SELF, &ru); err != nil {
+		return 0
+	}
+	return time.Duration(ru.Utime.Nano() + ru.Stime.Nano())
 }
 
 func opTimeout() time.Duration {
